@@ -170,6 +170,24 @@ func genEdit(r *rand.Rand, s *scriptWriter, ids []string, length int, rich float
 	r1, r2 := randList(r, o), randList(r, o)
 	s.reset(map[string]*sbom.NodeList{"r1": r1, "r2": r2, "r3": randList(r, o), "r4": emptyNL()})
 	all := append(append([]string{}, ids...), "nope")
+	if len(ids) >= 12 && r.Intn(4) == 1 {
+		// many edges (more than any small-input shortcut of a sort), several per (source, type), far apart in the list
+		many := &sbom.NodeList{}
+		for _, id := range ids[:12] {
+			many.Nodes = append(many.Nodes, randNode(r, id, rich))
+		}
+		for k := 0; k < 36; k++ {
+			many.Edges = append(many.Edges, &sbom.Edge{Type: edgeTypes2[(k/6)%2], From: ids[k%6], To: []string{ids[6+(k*5)%6], ids[(k*7)%12]}})
+		}
+		r.Shuffle(len(many.Edges), func(a, b int) { many.Edges[a], many.Edges[b] = many.Edges[b], many.Edges[a] })
+		many.RootElements = []string{ids[0]}
+		r1 = many
+		s.sid--
+		s.reset(map[string]*sbom.NodeList{"r1": r1, "r2": r2, "r3": randList(r, o), "r4": emptyNL()})
+		s.op("Remove", "a", "r1", "ids", []string{ids[11]})
+		s.op("Union", "a", "r1", "b", "r2", "out", "r4")
+		s.op("Graph", "a", "r1", "id", ids[0], "out", "r4")
+	}
 	if len(ids) >= 12 && r.Intn(4) == 0 {
 		// three parallel edges of one source and type: a wide one, a narrow one that introduces a new target, a wide one
 		// that repeats it (normalisation must not depend on how many targets an edge has)
@@ -394,6 +412,13 @@ func genExtract(r *rand.Rand, s *scriptWriter, ids []string) {
 		return
 	}
 	o := listOpts{ids: ids, rich: 0.05, types: edgeTypes2, maxNodes: len(ids), ill: r.Intn(3) == 0}
+	if r.Intn(4) == 1 {
+		// every relationship type of the schema (and two numbers outside it): a traversal follows edges of any type
+		o.types = nil
+		for k := 0; k < 6; k++ {
+			o.types = append(o.types, sbom.Edge_Type(r.Intn(47)))
+		}
+	}
 	if r.Intn(4) == 0 {
 		// identifiers that continue one another by digits, edge types whose numbers continue those digits, and several
 		// types along a path: ("p1", type 15) and ("p11", type 5) are different (source, type) pairs
@@ -444,7 +469,7 @@ func matchNode(r *rand.Rand, id string) *sbom.Node {
 	if r.Intn(3) > 0 {
 		n.Identifiers = map[int32]string{}
 		if r.Intn(4) > 0 { // also on FILE nodes: a file may carry a package URL identifier, it just has no purl of its own
-			n.Identifiers[1] = pick(r, []string{"pkg:npm/p@1", "pkg:npm/q@1"})
+			n.Identifiers[1] = pick(r, []string{"pkg:npm/p@1", "pkg:npm/q@1", "pkg:npm/p@1", "pkg:npm/q@1", "npm/p@1", "/npm/q@1", "pkg:/npm/p@1"})
 		}
 		if r.Intn(3) == 0 {
 			n.Identifiers[3] = pick(r, []string{"cpe:2.3:a:x", "cpe:2.3:a:y"})
@@ -483,6 +508,11 @@ func genMatch(r *rand.Rand, s *scriptWriter, ids []string) {
 		for _, reg := range []string{"g", "p1", "p2"} {
 			for rep := 0; rep < 3; rep++ {
 				s.op("Match", "a", reg, "p", p)
+			}
+		}
+		if q == 2 && len(g.Nodes) > 0 {
+			for k := 0; k < 3; k++ { // the probe is the k-th element of the list itself
+				s.op("Match", "a", "g", "p", map[string]any{"id": "placeholder", "type": 0}, "self", r.Intn(16))
 			}
 		}
 		if q == 1 && len(g.Nodes) > 0 {
